@@ -27,6 +27,18 @@ DESIGN = {
             [("Loop_mut_firstonly.cfg", "C04"), ("Loop_mut_strict.cfg", "C04")]),
     "C05": (["Loop_quick.cfg"], ["Loop_small.cfg", "Loop_faults.cfg"], [("Loop_mut_skip_noidle.cfg", "C05"), ("Loop_mut_no_reidle.cfg", "C01")]),
     "C08": (["Loop_faults_quick.cfg", "Loop_quick.cfg"], ["Loop_faults.cfg", "Loop_small.cfg"], [("Loop_mut_exit_without_answer.cfg", "C08")]),
+    "C17": (["AlbumArt.cfg"], ["AlbumArt.cfg", "AlbumArt_big.cfg"], []),
+    "C18": (["Handshake.cfg"], ["Handshake.cfg"], []),
+}
+DESIGN_MODULE = {"AlbumArt.cfg": "AlbumArt", "AlbumArt_big.cfg": "AlbumArt", "Handshake.cfg": "Handshake"}
+
+MODEL_SCOPE = {
+    "loop": "Loop.tla exhaustive: 2 callers x 1 request (single / failing / 2-command list with scripted failure), <= 2 server changes of <= 2 subsystems, "
+            "every half-line segmentation, both select! outcomes, timer, cancel, handle drop; faults config: one fault of each kind at every state",
+    "C17": "AlbumArt.tla exhaustive: Client::album_art as coded x the server's picture rules for every embedded / file picture size -1..6 (thorough: ..12), chunk limit 1..4 (..7), "
+           "MIME present / absent, scripted ACK 0 / 5 / 50 on either command; invariants: request sequence, result, offsets strictly increasing; liveness: termination",
+    "C18": "Handshake.tla exhaustive: do_connect as coded x greeting kinds {valid, invalid, cut viable, cut bad} x every half-line segmentation x password {none, accepted, wrong} x "
+           "verdict {OK, ACK 3, ACK 4, garbage, close, cut reply} x peer close at every point",
 }
 
 PROFILES = {
@@ -35,6 +47,8 @@ PROFILES = {
     "C04": [("base", 900, 16000), ("faults", 200, 4000)],
     "C05": [("base", 700, 12000), ("faults", 200, 4000), ("handshake", 150, 2000)],
     "C08": [("faults", 900, 16000), ("base", 200, 3000)],
+    "C17": [("art", 250, 5000)],
+    "C18": [("handshake", 1500, 30000)],
 }
 
 GEN = {
@@ -43,6 +57,8 @@ GEN = {
     "C04": [("LoopGen_sim.cfg", 2, 150, 3000)],
     "C05": [("LoopGen_sim.cfg", 2, 150, 3000)],
     "C08": [("LoopGen_faults_sim.cfg", 2, 200, 4000)],
+    "C17": [],
+    "C18": [],
 }
 
 
@@ -93,7 +109,7 @@ def _run(prop, tier, replay, seed, work, t0):
         # ---- role 1: design check (exhaustive, small scope) on the model as coded
         qcfgs, tcfgs, muts = DESIGN[prop]
         for cfg in (qcfgs if quick else tcfgs):
-            r = C.design_check("Loop", cfg, work, workers=12 if quick else 14, timeout=240 if quick else 1500, xmx="10g")
+            r = C.design_check(DESIGN_MODULE.get(cfg, "Loop"), cfg, work, workers=12 if quick else 14, timeout=240 if quick else 1500, xmx="10g")
             design.append(r)
         # ---- vacuity guard: a seeded model mutant must trip the monitor it is aimed at
         for cfg, tag in muts[: (1 if quick else len(muts))]:
@@ -148,7 +164,43 @@ def _run(prop, tier, replay, seed, work, t0):
                 elif p in tags:
                     verdict.add(prop, (f"[{p}] " if p != prop else "") + msg, sig, {"run": run, "line": line, "trace": tp})
 
+    extra = {}
+    if prop == "C18" and not replay:
+        # protocol-level connects (both flavours) on greeting strings x segmentations, judged by WireTrace.tla
+        import random as _r
+        import wiregen as G
+        rng = _r.Random(f"c18:{seed}")
+        gcases = []
+        greets = [list(x) for x in G.GREETINGS]
+        for _ in range(60 if quick else 3000):
+            gcases.append(G.mutate(rng, rng.choice(greets[:6])))
+        for gb in greets + gcases:
+            for fl in ("sync", "async"):
+                variants = [[], G.rand_cuts(rng, len(gb), 2), G.rand_cuts(rng, len(gb), 4)]
+                if len(gb) < 30:
+                    variants += [[c] for c in range(1, len(gb))] if not quick else [list(range(1, len(gb)))]
+                for cuts in variants:
+                    extra[len(extra)] = {"id": len(extra), "stream": gb, "cuts": cuts, "flavour": fl, "pend": rng.random() < 0.3, "mode": "connect"}
+        cp, tp = work.path("greet.ndjson"), work.path("greet_out.ndjson")
+        with open(cp, "w") as f:
+            for c in extra.values():
+                f.write(json.dumps(c) + "\n")
+        C.run([binpath, "wire", cp, tp], timeout=600)
+        tuples, _, nst, _ = C.tlc_trace("WireTrace", "WireTrace.cfg", tp, work, timeout=1500)
+        nevents += nst - 1
+        for t in tuples:
+            if t[0] == "VIOL":
+                for p, msg, sig in t[3]:
+                    if p == "C18":
+                        verdict.add(prop, msg + " (protocol-level connect)", sig, {"run": None, "line": t[2], "trace": tp, "greet": t[1]})
+
     def write_replay(msg, sig, where):
+        if where.get("greet") is not None:
+            h = hashlib.sha1((msg + json.dumps(extra.get(where["greet"]), sort_keys=True)).encode()).hexdigest()[:12]
+            path = os.path.join(C.replay_dir(), f"{prop}_{h}.json")
+            with open(path, "w") as f:
+                json.dump({"property": prop, "message": msg, "seed": seed, "greet_case": extra.get(where["greet"])}, f)
+            return path
         runs = split_runs(where["trace"])
         h = hashlib.sha1((msg + json.dumps(by_id.get(where["run"]), sort_keys=True)).encode()).hexdigest()[:12]
         path = os.path.join(C.replay_dir(), f"{prop}_{h}.json")
@@ -182,8 +234,8 @@ def _run(prop, tier, replay, seed, work, t0):
         "selftests": selftests,
         "trace_events_validated": nevents,
         "known_finding_hits": {k: len(v) for k, v in verdict.known_hits.items()},
-        "model_scope": "Loop.tla exhaustive: 2 callers x 1 request (single / failing / 2-command list with scripted failure), <= 2 server changes of <= 2 subsystems, "
-                       "every half-line segmentation, both select! outcomes, timer, cancel, handle drop; faults config: one fault of each kind at every state",
+        "protocol_level_connect_cases": len(extra),
+        "model_scope": MODEL_SCOPE.get(prop, MODEL_SCOPE["loop"]),
     }
     assumptions = [
         "the MPD server rules in spec/World.tla (idle/noidle, command lists, ACK) are transcribed from the protocol reference; no MPD binary is available",
